@@ -26,6 +26,7 @@ type c18op struct {
 	PL bool   `json:"pl"` // what the probe would say
 	PE int    `json:"pe"` // error class the probe would return
 	D  int64  `json:"d"`  // advance
+	P  uint16 `json:"p"`  // destination port of the query (0 = 443); the caches are keyed by address only
 }
 
 type c18case struct {
@@ -174,7 +175,11 @@ func c18run(c c18case, fake bool) (r c18res) {
 		cur = o
 		switch o.K {
 		case "q":
-			live, err := lt.PhantomIsLive(c18addrs[o.A], 443)
+			port := o.P
+			if port == 0 {
+				port = 443
+			}
+			live, err := lt.PhantomIsLive(c18addrs[o.A], port)
 			st.Live = live
 			st.Err = c18classOf(err)
 		case "a":
